@@ -178,14 +178,17 @@ PROPS = {
         "thorough_engines": ["snap", "snapx", "json"],
         "footprint": {"pkg": "*", "restored": "*", "json": "*", "jparsed": "*"},
         "nontrivial": r"^restored ",
-        "rule": "E-snap: 3 (thorough 6 per shard) levels of 0-6 orders over all seven kinds, both id formats and boundary values; for the serialized package of each: "
-                "EVERY truncation point, every single-byte deletion, 1500 (thorough 20000) substitutions and as many insertions at random offsets (structural "
+        "eval_line": r"^restored |^raw$|^jparsed ",
+        "rule": "E-snap: 3 (thorough 4 per shard, 14 shards) levels of 0-3 orders over all seven kinds, both id formats, twin ids and boundary values; for the serialized package of each: "
+                "EVERY truncation point, every single-byte deletion, 1500 (thorough 5000) substitutions and as many insertions at random offsets (structural "
                 "characters, digits, hex letters, random bytes), the structural edits swap / drop / duplicate an order, edit a number / the price / an aggregate, "
-                "unknown field, replaced key, version 0..4, one checksum character, and pairs of substitutions; thorough adds E-snapx: all 128 byte values at every offset of one package. "
-                "The crate's checksum is compared with the model's SHA-256; each restore outcome is compared with the model's and judged by the decision theorem's predicate "
-                "(accepted => supported version, checksum = SHA-256 of the content, restored content = packaged content = snapshotted content); "
-                "non-trivial = a damaged text that reached the restore (distinct = distinct fault)",
-        "assumptions": ["SHA-256 collision resistance (the property's own assumption); serde_json's reader modelled and compared, not proved"],
+                "unknown field, replaced key, version 0..4, one checksum character, pairs of substitutions, and the systematic structural mutations: every node of the "
+                "document x {delete, null, 9 boundary numbers, other strings, empty container} and ALL pairs of them among the package's and the snapshot's own fields; "
+                "thorough adds E-snapx: all 128 byte values at every offset of one package. The crate's checksum is compared with the model's SHA-256; each restore "
+                "outcome is compared with the model's and judged by the decision theorem's predicate (accepted => supported version, checksum = SHA-256 of the content, "
+                "restored content = packaged content = snapshotted content); one evaluation = one damaged text handed to the restore (distinct = distinct damaged text); "
+                "E-json adds the package / snapshot values of C17 (wrong version, wrong checksum, unsorted order vectors, overflowing sums)",
+        "assumptions": ["SHA-256 collision resistance (the property's own assumption); that render/parseJson are serde_json's printer/reader is compared on every case, not proved"],
     },
     "C18": {
         "engines": ["codec", "json", "snap"],
